@@ -40,7 +40,17 @@ def evaluate(pid, seeds=("1",), rnd=1):
         json.dump(meta, open(meta_p, "w"), indent=1)
         print(pid, "patch does not apply:", r.stderr[-300:]); return None
     caught, lines, walls = False, [], []
+    tests = TESTS.get(pid, [])
+    tests_ok = None
     try:
+        if tests:
+            # my own confirmation that the existing tests stay green with the change (targets rebuilt in /repo/_build)
+            b = sh("cmake --build /repo/_build -j8 --target %s" % " ".join(tests))
+            t = sh("ctest --test-dir /repo/_build --timeout 600 -R '(%s)$'" % "|".join(tests))
+            tests_ok = b.returncode == 0 and t.returncode == 0
+            meta["tests_confirmed"] = {"targets": tests, "build_rc": b.returncode, "ctest_rc": t.returncode,
+                                       "tail": t.stdout[-400:]}
+            print(pid, "tests with the change:", "green" if tests_ok else "NOT GREEN", tests)
         for seed in seeds:
             t0 = time.time()
             c = sh(["./check", pid, "--tier", "quick"], cwd="/verif", env=dict(os.environ, VERIF_SEED=seed))
@@ -53,6 +63,8 @@ def evaluate(pid, seeds=("1",), rnd=1):
                 break
     finally:
         sh("git -C /repo checkout -- .")
+        if tests:
+            sh("cmake --build /repo/_build -j8 --target %s" % " ".join(tests))
     # keep the replay the check produced next to the seed, drop it from replays/
     rep = []
     for l in lines:
@@ -68,6 +80,13 @@ def evaluate(pid, seeds=("1",), rnd=1):
     json.dump(meta, open(meta_p, "w"), indent=1)
     print(pid, "CAUGHT" if caught else "MISSED", lines[:2])
     return caught
+
+TESTS = {
+    "C10": ["iora_test_ring_buffer", "iora_test_blocking_queue"], "C11": ["iora_test_state"],
+    "C12": ["iora_test_kvstore"], "C13": ["iora_test_json_parser"], "C16": ["iora_test_http"],
+    "C17": ["iora_test_http", "iora_test_http_client_retry", "iora_test_http_client_lease",
+            "iora_test_http_client_response_framing"], "C20": ["test_assets", "test_embed_assets"],
+}
 
 if __name__ == "__main__":
     args = sys.argv[1:]
